@@ -67,6 +67,8 @@ def fam_history(w: World) -> None:
     ch = w.ch
     n = 2 + ch.draw(60, 'history.len')
     cfg = S.draw_config(ch, 3, middlewares=True, handlers=True)
+    if ch.flag(1, 5, 'srv.single_use_encoder'):
+        cfg['hooks'] = 'single_use_encoder'   # a user encoder class whose instances serve one document each
     texts = _corpus(ch, 'h', n)
     for k in range(n):
         for j in range(4):
@@ -90,6 +92,8 @@ def fam_threads(w: World) -> None:
     n_threads = [2, 3, 4, 5, 8, 16][ch.weighted([4, 4, 3, 2, 2, 1], 'threads.n')]
     per = 1 + ch.draw(3, 'threads.per')
     cfg = S.draw_config(ch, 3, middlewares=True, handlers=True, force_async=False)
+    if ch.flag(1, 5, 'srv.single_use_encoder'):
+        cfg['hooks'] = 'single_use_encoder'   # a user encoder class whose instances serve one document each
     corpora = [_corpus(ch, f'th{i}x', per) for i in range(n_threads)]
     if ch.flag(1, 2, 'threads.first_use_race'):
         # every thread starts with a call to a method that has a validator with per-method arguments: whatever the
@@ -135,6 +139,8 @@ def fam_tasks(w: World) -> None:
     ch = w.ch
     n_tasks = 2 + ch.draw(3, 'tasks.n')
     cfg = S.draw_config(ch, 3, middlewares=True, handlers=True, force_async=True)
+    if ch.flag(1, 5, 'srv.single_use_encoder'):
+        cfg['hooks'] = 'single_use_encoder'   # a user encoder class whose instances serve one document each
     texts = _corpus(ch, 'k', n_tasks)
     for k in range(n_tasks):
         for j in range(4):
